@@ -137,4 +137,41 @@ def runLargeCase (hdr : List String) (ops : List String) : List String :=
       else "ok" :: runLargeOps ⟨[], c⟩ ops
   | _ => "bad-op" :: ops.map fun _ => "bad-op"
 
+/-! ### `ringM`: 2–4 INDEPENDENT rings (separate `New` calls, never copied), large size
+classes; lines `<i> <bulk or single op>` / `<i> init c`.  Each object is answered by its own
+spec-level state: `c10_objects_independent` (objects created by separate `New` calls never
+come to share a buffer, so an operation on one changes nothing another reads) and
+`c10_ring_large_refines`. -/
+
+def runMultiOps : List BQ → List String → List String
+  | _, [] => []
+  | ss, l :: ls =>
+    match toks l with
+    | i :: rest =>
+      match i.toNat? with
+      | none => "bad-op" :: runMultiOps ss ls
+      | some i =>
+        match ss[i]? with
+        | none => "bad-op" :: runMultiOps ss ls
+        | some s =>
+          match rest with
+          | ["init", c] =>
+            match c.toInt? with
+            | some c =>
+              if c ≤ 0 then "bad-op" :: runMultiOps ss ls
+              else "ok" :: runMultiOps (ss.set i ⟨[], c⟩) ls
+            | none => "bad-op" :: runMultiOps ss ls
+          | _ =>
+            match parseLOp rest with
+            | none => "bad-op" :: runMultiOps ss ls
+            | some op => let (s', o) := s.lstep op; o :: runMultiOps (ss.set i s') ls
+    | _ => "bad-op" :: runMultiOps ss ls
+
+def runMultiCase (hdr : List String) (ops : List String) : List String :=
+  match hdr.mapM String.toInt? with
+  | none => "bad-op" :: ops.map fun _ => "bad-op"
+  | some cs =>
+    if cs.isEmpty ∨ cs.any (· ≤ 0) then "bad-op" :: ops.map fun _ => "bad-op"
+    else "ok" :: runMultiOps (cs.map fun c => ⟨[], c⟩) ops
+
 end Golib.C10
